@@ -286,6 +286,7 @@ static void check(const Exec& x)
     }
   }
   g_outcomes.insert(out);
+  if ((n_sched % 1009) == 5) sample("{\"threads\":" + std::to_string(g_nthreads) + ",\"schedule_choices\":\"" + ss.substr(0, 400) + "\",\"scheduling_points\":" + std::to_string(x.points.size()) + ",\"races\":" + std::to_string(x.races.size()) + "}", 4);
   if (x.deadlock) viol(std::string("C18 backend=") + bk_name + " kind=deadlock", kase_prefix(), "no enabled thread while some have not finished");
   if (x.crashed) viol(std::string("C18 backend=") + bk_name + " kind=crash-under-interleaving", kase_prefix(), "the process died (signal " + std::to_string(x.crashed) + ") under the schedule with this choice prefix");
   if (x.hang) viol(std::string("C18 backend=") + bk_name + " kind=hang-under-interleaving", kase_prefix(), "no progress for 20 s under the schedule with this choice prefix");
